@@ -249,6 +249,8 @@ Fixpoint has_cleared (o : list out) : bool :=
 (* the queue `q` (that of the record before the section) has been discarded if the outputs say so *)
 Definition drop_promises (st : conn) (o : list out) (q : list qframe) : conn :=
   if has_cleared o then fail_promised st q else st.
+(* what Send::send_reset discards of a record's queue *)
+Definition reset_drops (r : srec) : list qframe := if s_popen r then tl (s_q r) else s_q r.
 
 (* Config: role, local_push_enabled, local_next_stream_id (1 for a client, 2 for a server) *)
 Definition init (r : role) (push_local : bool) : conn :=
@@ -325,7 +327,10 @@ Definition send_reset_core (sid reason : N) (i : initiator) (r : srec) : srec * 
        && (match s_infl r with None => true | Some _ => false end)
     then (r1, [])                                                   (* closed and flushed: no RST_STREAM *)
     else
-      let '(r2, o2) := if s_popen r1 then (r1, []) else clear_queue sid r1 in
+      (* a stream not opened yet keeps the HEADERS that open it - the first queued frame - and drops what is queued
+         behind them (repair a052906); any other stream drops its whole queue *)
+      let '(r2, o2) := if s_popen r1 then (set_q r1 (firstn 1 (s_q r1)) None, [OCleared sid])
+                       else clear_queue sid r1 in
       let '(r3, o3) := queue_frame sid (QReset reason) r2 in
       (r3, o2 ++ o3).
 
@@ -507,7 +512,7 @@ Definition recv_trailers_core (sid : N) (o : hobs) (r : srec) : srec * list out 
 Definition recv_headers_on (st : conn) (sid : N) (eos info : bool) (o : hobs) (k : N) (r : srec) (ins : bool)
   : outcome :=
   let o0 := if ins then [OOpened sid] else [] in
-  let wr := fun r' o' => drop_promises (put st k r') o' (s_q r) in
+  let wr := fun r' o' => drop_promises (put st k r') o' (reset_drops r) in
   if s_popen r then res1 st o0 (RErr conn_proto)
   else if is_local_error (s_state r) then res1 st o0 RIgnored
   else if is_recv_headers (s_state r) then
@@ -602,7 +607,7 @@ Definition step_recv_data (st : conn) (sid : N) (eos : bool) (o : dobs) : outcom
                    | x => x
                    end in
       let '(r2, o2, res2) := reset_on_recv_stream_err sid res1' (d_quota o) (d_can_reset o) r1 in
-      res1 (drop_promises (put st k r2) o2 (s_q r)) (o1 ++ o2) res2
+      res1 (drop_promises (put st k r2) o2 (reset_drops r)) (o1 ++ o2) res2
     end.
 
 (* ---------------------------------------------------------------------------------------------
@@ -638,7 +643,7 @@ Definition step_recv_window_update (st : conn) (sid : N) (o : wobs) : outcome :=
         let '(r1, o1) := send_reset_core sid FLOW_CONTROL_ERROR Library r in
         let '(r2, o2, res2) := reset_on_recv_stream_err sid (RErr (lib_reset sid FLOW_CONTROL_ERROR))
                                                         (w_quota o) (w_can_reset o) r1 in
-        res1 (drop_promises (put st k r2) (o1 ++ o2) (s_q r)) (o1 ++ o2) res2
+        res1 (drop_promises (put st k r2) (o1 ++ o2) (reset_drops r)) (o1 ++ o2) res2
       else res1 st [] ROk
     end.
 
@@ -648,7 +653,9 @@ Definition step_recv_push_promise (st : conn) (sid promised : N) (o : pobs) (nk 
     match iget st sid with
     | None => res1 st [] (RErr conn_proto)
     | Some (_, r) =>
-      if c_recv_max st <? sid then res1 st [] RIgnored
+      (* repair 28d67d9: a push is associated with a request of ours that the peer has seen *)
+      if negb (is_local_init (c_role st) sid) || s_popen r then res1 st [] (RErr conn_proto)
+      else if c_recv_max st <? sid then res1 st [] RIgnored
       else if is_local_error (s_state r) then
         (* the parent was reset locally: the promised stream is refused (repair 631577b) *)
         (* repair 60d7633: the promised identifier goes through Recv::open like any other *)
@@ -753,7 +760,7 @@ Definition step_poll2_reset (st : conn) (sid code : N) (quota can : bool) (nk : 
     | Some (k, r) =>
       match actions_send_reset sid code Library quota can r with
       | None => res1 st [] (RErr too_many_internal_resets)
-      | Some (r1, o1) => res1 (drop_promises (put st k r1) o1 (s_q r)) o1 ROk
+      | Some (r1, o1) => res1 (drop_promises (put st k r1) o1 (reset_drops r)) o1 ROk
       end
     | None =>
       let st1 := if is_local_init (c_role st) sid
@@ -888,9 +895,9 @@ Definition step_push_request (st : conn) (k : N) (convert_ok hdr_ok : bool) (nk 
             match reserve_local (s_state (new_rec id)) with
             | (s1, RUnit) =>
               let child := set_ppush (set_state (new_rec id) s1) true in
-              (* convert_push_message fails: `?` returns with the child record left in the store *)
-              if negb convert_ok then res1 (insert st1 nk child) [OOpened id] (RUser UMalformedHeaders)
-              (* Send::send_push_promise; on an error the child is unlinked and removed again *)
+              (* convert_push_message or Send::send_push_promise fails: the child is unlinked and removed again
+                 (repair c395943: also when the request does not convert) *)
+              if negb convert_ok then res1 st1 [] (RUser UMalformedHeaders)
               else if negb (c_push_remote st) then res1 st1 [] (RUser UPeerDisabledServerPush)
               else if is_send_closed (s_state parent) then
                 res1 st1 [] (RUser (if is_closed (s_state parent) then UInactiveStreamId else UUnexpectedFrameType))
@@ -909,7 +916,7 @@ Definition step_send_reset (st : conn) (k code : N) (can : bool) : outcome :=
   | None => Stuck 18
   | Some r =>
     match actions_send_reset (s_id r) code User true can r with
-    | Some (r1, o1) => res1 (drop_promises (put st k r1) o1 (s_q r)) o1 ROk
+    | Some (r1, o1) => res1 (drop_promises (put st k r1) o1 (reset_drops r)) o1 ROk
     | None => Panic 8                                      (* unreachable!("Initiator::User should not error sending reset") *)
     end
   end.
@@ -1333,9 +1340,14 @@ Definition outs_match (ro : role) (o : list out) (e : expect) : bool :=
 
 (* Record shapes no history produces - hypotheses of several theorems, checked here at every label of every run (like the
    Stuck guards): no record stays Idle; a stream whose PUSH_PROMISE is still
-   queued, or that waits for a concurrency slot, is one of ours and has received nothing *)
+   queued, or that waits for a concurrency slot, is one of ours and has received nothing; a stream
+   reserved by the peer's PUSH_PROMISE is one of the peer's *)
 Definition wf_shape (ro : role) (sid : N) (r : srec) : bool :=
-  match s_state r with Idle => false | _ => true end &&
+  match s_state r with
+  | Idle => false
+  | ReservedRemote => negb (is_local_init ro sid)      (* a stream the peer has promised carries the peer's parity *)
+  | _ => true
+  end &&
   (if s_ppush r then
      negb (s_popen r) && is_server ro && is_local_init ro sid &&
      match s_state r with ReservedLocal | HalfClosedRemote Streaming | Closed _ => true | _ => false end
